@@ -2,6 +2,7 @@ package props
 
 import (
 	"fmt"
+	"strconv"
 	"strings"
 	"sync/atomic"
 	"time"
@@ -116,6 +117,28 @@ func c03Flow(c c03Case) (string, int) {
 	if sid == "" {
 		return fail("no-session-cookie", "login redirect without the session cookie")
 	}
+	// the browser is a user agent that honours cookie lifetimes (RFC 6265 Max-Age / Expires): dead is the virtual time
+	// after which it no longer sends the session cookie (zero: a session cookie, kept)
+	var dead time.Time
+	jar := func(r world.Result) {
+		for _, sc := range r.SetCookies {
+			pc, err := parseSetCookie(sc)
+			if err != nil || pc.Name != world.CookieName(c.Spec.CookiePrefix) {
+				continue
+			}
+			dead = time.Time{}
+			if ma, ok := pc.Attrs["max-age"]; ok {
+				if n, err := strconv.Atoi(ma); err == nil {
+					dead = w.Now().Add(time.Duration(n) * time.Second)
+				}
+			} else if ex, ok := pc.Attrs["expires"]; ok {
+				if t, err := time.Parse(time.RFC1123, ex); err == nil {
+					dead = t
+				}
+			}
+		}
+	}
+	jar(r1)
 	// 2. the provider's authorization endpoint
 	cbURL, _, err := w.IdP.Authorize(r1.Location)
 	if err != nil {
@@ -138,11 +161,17 @@ func c03Flow(c c03Case) (string, int) {
 	if ns := w.SessionFromSetCookie(r2); ns != "" && ns != sid {
 		sid = ns // a well-behaved browser would follow a cookie change
 	}
+	jar(r2)
 	// 4. original URL again, then the tail
 	adv := append([]int{0}, c.Tail...)
 	for i, a := range adv {
 		w.Advance(time.Duration(a) * time.Second)
-		r := w.Do(world.Req{Path: c.Target, Cookie: sid}, plan)
+		present := sid
+		if !dead.IsZero() && !w.Now().Before(dead) {
+			present = "" // the user agent has dropped the cookie
+		}
+		r := w.Do(world.Req{Path: c.Target, Cookie: present}, plan)
+		jar(r)
 		steps++
 		if r.Panic != "" || r.Err != "" {
 			return fail("error-after-login", r.Panic+r.Err)
@@ -354,6 +383,27 @@ func c03Run(run *ev.Run) {
 	}
 	evals += oddp
 	run.Extra["flows_with_odd_cookie_prefix"] = oddp
+	// session time-outs longer than the run of requests but shorter than (idle) / longer than (absolute) the token
+	// lifetime: an active user stays logged in; the browser honours cookie lifetimes
+	var tmo int64
+	for _, to := range [][2]int{{0, 50}, {3600, 50}, {3600, 0}, {55, 3600}} {
+		for _, store := range []string{"memory", "redis"} {
+			for _, a := range []world.Answer{answers[0], answers[len(answers)/2]} {
+				c := c03Case{Answer: a, Spec: world.Spec{Store: store, Forward: true, Logout: true, Abs: to[0], Idle: to[1], Scopes: []string{"openid"}}, Target: targets[0], Tail: []int{20, 20, 14}}
+				res, n := c03Flow(c)
+				tmo++
+				steps += int64(n)
+				if res != "" {
+					sig, msg, _ := strings.Cut(res, "\x00")
+					run.Violation(fmt.Sprintf("C03 %s timeouts abs=%d idle=%d", sig, to[0], to[1]), msg, c)
+				} else {
+					run.Class(fmt.Sprintf("timeouts|abs=%d|idle=%d|store=%s", to[0], to[1], store))
+				}
+			}
+		}
+	}
+	evals += tmo
+	run.Extra["flows_with_session_timeouts"] = tmo
 	// server level: real loader + factory + Check + trigger rules (serial: one in-memory network per process)
 	var srv int64
 	srvAnswers := answers
